@@ -38,7 +38,7 @@ SHARDS = {'quick': 16, 'thorough': 16}
 TIMEOUT = {'quick': 1200, 'thorough': 7200}
 FLOOR = {'quick': 150, 'thorough': 1500}
 REQUIRED_MONITORS = {'schedules-executed': 100, 'context-switches-inside-monitored-code': 100,
-                     'stress-renders': 1000, 'history-renders': 500, 'loader-history-renders': 500, 'M-args': 500, 'cross-process-outputs': 20, 'pool-orders-rendered': 16}
+                     'stress-renders': 1000, 'history-renders': 500, 'loader-history-renders': 500, 'file-history-renders': 400, 'M-args': 500, 'cross-process-outputs': 20, 'pool-orders-rendered': 16}
 RULE = ('(d) a case = one executed schedule of 2 threads over a scenario in {first (lazy) render of a fresh file template, '
         'render of an auto-reload template whose file changed before both calls, first load+render through a shared '
         'loader, load: chain}; schedules: A advanced k line-steps then B to completion (every k until A finishes, both '
@@ -117,6 +117,48 @@ def layer_histories(ctx, n):
                               {'kind': 'history', 'template': name, 'x': x})
             seen.setdefault(x, out)
         ctx.case(key=('hist', name, tuple(h[0] for h in hist)), nontrivial=len(hist) >= 2)
+
+
+
+def layer_file_histories(ctx, n):
+    """An auto-reload file template that stays in use while its file is replaced (newer, older or equal-length
+    content; modification times moving forwards or backwards, as after a rollback or cp -p): every render equals
+    what a separately compiled instance of the file as it is now renders."""
+    from chameleon import PageTemplateFile
+    rng = ctx.rng
+    d = tempfile.mkdtemp(prefix='c14f_')
+    try:
+        for case in range(n):
+            path = os.path.join(d, 'f%d.pt' % case)
+            mtime = 1_000_000 + rng.randrange(1000)
+            names = sorted(TEMPLATES)
+            write_file(path, TEMPLATES[rng.choice(names)], mtime)
+            used = PageTemplateFile(path, auto_reload=True)
+            hist = []
+            for step in range(rng.randint(3, 7)):
+                if step and rng.random() < .6:
+                    mtime += rng.choice([-500, -1, 1, 7, 500])
+                    write_file(path, TEMPLATES[rng.choice(names)], mtime)
+                    hist.append('write@%+d' % (mtime - 1_000_000))
+                x = rng.randrange(6)
+                try:
+                    got = solo(used, x)
+                except Exception as e:
+                    got = 'RAISED %s' % type(e).__name__
+                try:
+                    want = solo(PageTemplateFile(path), x)
+                except Exception as e:
+                    want = 'RAISED %s' % type(e).__name__
+                hist.append('render(%d)' % x)
+                ctx.mon('file-history-renders')
+                if got != want:
+                    ctx.violation('file-template-in-use-differs-from-fresh-instance',
+                                  'history %r: the instance in use rendered %r, a separately compiled instance of the file %r' % (
+                                      hist, got[:200], want[:200]), {'kind': 'filehist'})
+                    break
+            ctx.case(key=('filehist', tuple(h.split('(')[0] for h in hist)), nontrivial=any(h.startswith('write') for h in hist))
+    finally:
+        shutil.rmtree(d, ignore_errors=True)
 
 
 CHILD_SNIPPET = r'''
@@ -593,6 +635,7 @@ def run(ctx):
     monitors.install(ctx, tokalg=False)
     layer_histories(ctx, 40 if ctx.quick else 600)
     layer_loader_histories(ctx, 25 if ctx.quick else 400)
+    layer_file_histories(ctx, 15 if ctx.quick else 300)
     layer_cross_process(ctx)
     layer_order_independence(ctx, 3 if ctx.quick else 8)
     layer_stress(ctx, 3 if ctx.quick else 30)
